@@ -482,10 +482,14 @@ def drive(mod, tier, seed, replay=None):
             nontriv.add(json.dumps([c.get(k) for k in sorted(c) if not k.startswith('_')], sort_keys=True, default=str))
     # 5. correspondence: model vs implementation
     terms, term_idx = [], []
+    esc_skipped = 0
     for i, (c, obs) in enumerate(zip(cases, observed)):
         t = mod.coq_check(c, obs)
         if t is not None:
+            if escalated and i >= n_base and len(t) > 3000:
+                esc_skipped += 1; continue        # escalated cases on long data: implementation + oracle only (the model evaluation is quadratic)
             terms.append(t); term_idx.append(i)
+    out.log['escalated_without_model_evaluation'] = esc_skipped
     t2 = time.time()
     bad, errors, nev = ([], [], 0)
     if ok:
